@@ -13,7 +13,7 @@ B(s) == CASE s = "Name" -> <<78, 97, 109, 101>> [] s = "X" -> <<88>> [] s = "x" 
           [] s = "any" -> <<97, 110, 121>> [] s = "" -> <<>> [] s = "s" -> <<115>> [] s = "name" -> <<110, 97, 109, 101>>
           [] s = "W" -> <<87>> [] s = "w" -> <<119>> [] s = "k" -> <<107>> [] s = "srv" -> <<115, 114, 118>> [] s = "Srv" -> <<83, 114, 118>>
           [] s = "f_oo_bar" -> <<102, 95, 111, 111, 95, 98, 97, 114>> [] s = "P" -> <<80>> [] s = "p" -> <<112>>
-          [] s = "T" -> <<84>> [] s = "Emb" -> <<69, 109, 98>>
+          [] s = "T" -> <<84>> [] s = "Emb" -> <<69, 109, 98>> [] s = "_x" -> <<95, 120>> [] s = "X_" -> <<88, 95>> [] s = "_foo__bar_" -> <<95, 102, 111, 111, 95, 95, 98, 97, 114, 95>>
           [] s = "Port" -> <<80, 111, 114, 116>> [] s = "Listen" -> <<76, 105, 115, 116, 101, 110>> [] s = "listen" -> <<108, 105, 115, 116, 101, 110>>
           [] s = "port" -> <<112, 111, 114, 116>> [] s = "conf" -> <<99, 111, 110, 102>> [] s = "Conf" -> <<67, 111, 110, 102>>
 SubA == [tname |-> <<>>, fields |-> << Field(B("X"), <<>>, "int", NoT) >>]
@@ -38,7 +38,7 @@ Vals == { IntV(1), StrV(B("s")), NilV, FloatV(5, 2), BoolV(TRUE), AtomV("int", "
           IntV(0), IntV(-5), StrV(<<>>), StrV(Esc), FloatV(-5, 2), V("float", 0, 1, <<>>, ""), BoolV(FALSE), AtomV("int", "minint"), AtomV("float", "tinyfloat") }
 ValsQ == { IntV(1), StrV(B("s")), NilV, FloatV(5, 2), BoolV(TRUE) }
 InnerBlk(nm) == [type |-> B("inner"), name |-> nm, ents |-> << Ent(B("x"), IntV(7)) >>]
-Keys == IF Small THEN {"x", "X", "foo_bar", "foobar", "y", "name", "p"} ELSE {"x", "X", "foo_bar", "foobar", "f_oo_bar", "y", "any", "name", "p"}
+Keys == IF Small THEN {"x", "X", "_x", "foo_bar", "foobar", "y", "name", "p"} ELSE {"x", "X", "_x", "X_", "foo_bar", "foobar", "f_oo_bar", "_foo__bar_", "y", "any", "name", "p"}
 EntsPool == { Ent(B(k), v) : k \in Keys, v \in (IF Small THEN {IntV(1), StrV(B("s")), NilV} ELSE Vals) }
               \cup { Ent(B("x"), StrV(Esc)), Ent(B("foo_bar"), IntV(-5)), Ent(B("y"), StrV(<<>>)) }
               \cup { EntB(B("inner"), InnerBlk(<<>>)), EntB(B("inner.n"), InnerBlk(B("n"))) }
@@ -82,6 +82,8 @@ Spec == Init /\ [][Next]_vars
 RECURSIVE TvJ(_)
 ValJ(v) == [t |-> v.t, n |-> v.n, d |-> v.d, s |-> v.s, atom |-> v.e]
 TvJ(tv) == [i \in 1..Len(tv) |-> [v |-> ValJ(tv[i].v), sub |-> IF tv[i].sub = <<>> THEN <<>> ELSE <<TvJ(tv[i].sub[1])>>]]
+RECURSIVE WrJ(_)
+WrJ(w) == [i \in 1..Len(w) |-> [w |-> w[i].w, sub |-> IF w[i].sub = <<>> THEN <<>> ELSE <<WrJ(w[i].sub[1])>>]]
 RECURSIVE TJ(_)
 TJ(T) == [i \in 1..Len(T.fields) |-> [go |-> T.fields[i].go, tag |-> T.fields[i].tag, kind |-> T.fields[i].kind,
                                       sub |-> IF T.fields[i].kind = "struct" THEN <<TJ(T.fields[i].sub)>> ELSE <<>>]]
@@ -97,6 +99,7 @@ ExpectCall == IF bk = "nil" \/ ~TargetOk THEN "error"
 Case == [ fam |-> "bind", tk |-> tk, bk |-> bk, nblk |-> nblk, tname |-> tn, desc |-> TJ(T), blk |-> BJ(blk),
           expect |-> ExpectCall,
           tv |-> IF ExpectCall = "nil" /\ nblk > 0 THEN TvJ(Target(T, blk)) ELSE <<>>,
+          wr |-> IF ExpectCall = "nil" /\ nblk > 0 THEN WrJ(Written(T, blk)) ELSE <<>>,
           nt |-> (Len(blk.ents) >= 2 \/ tk # "ptr-struct"),
           sens |-> (Cardinality({ i \in 1..Len(blk.ents) : ExpectEnt(T, blk.ents[i]) = "error" }) >= 2 \/ Collides(T, blk)) ]
 Complete == (Scope = "fields" /\ phase >= 1) \/ (Scope = "targets" /\ phase = 2)
